@@ -200,7 +200,7 @@ func H_C09_arraykey() {
 // C09.traverse — next visits every present key exactly once, also when visited fields are cleared
 // or overwritten during the traversal.
 //
-//verif:harness prop=C09 tier=quick qparams=nkeys:3 tparams=nkeys:4 bounds="tables built from nkeys (3 quick / 4 thorough) stores with keys from {array integers 1..4 (symbolic), 1-byte symbolic strings, booleans}; during the traversal every visited field is cleared / overwritten / left alone, or only the j-th visited field is cleared (by choice per table)"
+//verif:harness prop=C09 tier=quick qparams=nkeys:3 tparams=nkeys:4 bounds="tables built from nkeys (3 quick / 4 thorough) stores with keys from {array integers 1..4 (symbolic), 1-byte symbolic strings, booleans, hash-part numbers 0, -1, 2.5}, optionally followed by deleting one of them; during the traversal every visited field is cleared / overwritten / left alone, or only the j-th visited field is cleared (by choice per table)"
 func H_C09_traverse() {
 	L := newL(Options{}, BaseLibName)
 	tb := L.NewTable()
@@ -208,13 +208,16 @@ func H_C09_traverse() {
 	var keys []LValue
 	for i := 0; i < nk; i++ {
 		var k LValue
-		switch VChoice(3) {
+		switch VChoice(4) {
 		case 0:
 			b := VByte("ik")
 			VAssume(VAnd(b >= 1, b <= 4))
 			k = LNumber(int(b))
 		case 1:
 			k = LString(VStr("sk", 1))
+		case 3:
+			// numbers that live in the hash part (0 is also the traversal's internal start marker)
+			k = LNumber([]float64{0, -1, 2.5}[VChoice(3)])
 		default:
 			if VBool("bk") {
 				k = LTrue
@@ -232,6 +235,12 @@ func H_C09_traverse() {
 			keys = append(keys, k)
 			L.RawSet(tb, k, LNumber(100+i))
 		}
+	}
+	// optionally one of the keys is deleted again before the traversal starts (its slot in the insertion-order
+	// bookkeeping stays behind)
+	if del := VChoice(len(keys) + 1); del < len(keys) {
+		L.RawSet(tb, keys[del], LNil)
+		keys = append(append([]LValue{}, keys[:del]...), keys[del+1:]...)
 	}
 	mode := VChoice(4) // 0 leave, 1 clear every visited field, 2 overwrite every visited field, 3 clear only the j-th visited field
 	only := 0
@@ -272,5 +281,35 @@ func H_C09_traverse() {
 	}
 	VAssert(len(seen) == len(keys), "traverse: every present key is visited, also when visited fields are cleared or overwritten on the way")
 	// ipairs stops at the first nil
+	VReach("end")
+}
+
+// C09.luastore — a Lua-level store (assignment, rawset, constructor) under nil or NaN is an error; under any
+// other key it is readable again through both the normal and the raw read.
+//
+//verif:harness prop=C09 tier=quick bounds="key of any scalar type (nil, boolean, any float64 incl. NaN, a pool string) x 3 store forms (t[k] = v, rawset(t, k, v), {[k] = v}); MaxArrayIndex configured to 6"
+func H_C09_luastore() {
+	MaxArrayIndex = 6 // as in C09.map: keeps the array part (and the paths that grow it) small
+	L := newL(Options{}, BaseLibName)
+	k := symValue("k", kNil|kBool|kNum|kStr)
+	L.G.Global.RawSetString("k", k)
+	src := []string{
+		"local t = {}; t[k] = 7; return t[k], rawget(t, k)",
+		"local t = {}; rawset(t, k, 7); return t[k], rawget(t, k)",
+		"local t = {[k] = 7}; return t[k], rawget(t, k)",
+	}[VChoice(3)]
+	err := loadRun(L, src, 2)
+	bad := k == LNil
+	if n, ok := k.(LNumber); ok {
+		bad = float64(n) != float64(n)
+	}
+	if bad {
+		VAssert(err != nil, "luastore: a store under nil or NaN is an error: "+src)
+	} else {
+		VAssert(err == nil, "luastore: a store under any other key succeeds: "+src)
+		if err == nil {
+			VAssert(L.Get(1) == LNumber(7) && L.Get(2) == LNumber(7), "luastore: the stored value is read back by t[k] and rawget: "+src)
+		}
+	}
 	VReach("end")
 }
